@@ -292,6 +292,8 @@ def rand_universe(rng, o=None, uid=0):
     ir = {'uid': uid, 'tns': nss[0], 'types': types, 'services': services}
     if o.headers:
         ir['faults'] = [{'name': 'F0', 'ns': nss[0]}, {'name': 'F1', 'ns': nss[-1]}]
+    if getattr(o, 'null_items', False):
+        ir['null_items'] = True          # value generation: arrays may hold null items (the item elements are nillable)
     return ir
 
 
@@ -781,6 +783,8 @@ def gen_value(rng, ir, t, depth=3, top=False, alphabet='xml', subclass_ok=False)
             out.append(v)
         if out and 'ref' in inner and rng.random() < .25:
             out.append(out[0])          # the same object twice in one array (not a cycle)
+        if ir.get('null_items') and inner.get('nillable', True) and 'array' not in inner and rng.random() < .2:
+            out.insert(rng.randint(0, len(out)), None)       # a null item: first, in the middle, last or alone
         return out
     if 'seq' in t:
         mx = 5 if t['max'] == 'unbounded' else t['max']
